@@ -67,7 +67,7 @@ def generate(ndims, syms=("Z2", "Z4", "U1", "Z2Z2", "U1U1"), nsym_idx=1, conc_un
                 n += 1
                 out.append(f"def {name}({args}) -> bool:\n    \"\"\"\n    post: _\n    \"\"\"\n"
                            f"    cms = [{', '.join(cms)}]\n"
-                           f"    duals = ({', '.join('d%d' % i for i in range(nd))},)\n"
+                           f"    duals = tuple([{', '.join('d%d' % i for i in range(nd))}])\n"
                            f"    return _check({sym!r}, cms, duals, {qexpr})\n\n")
     return "\n".join(out)
 
